@@ -99,6 +99,70 @@ def early_changes(acc, picks) -> List[Any]:
     return done
 
 
+#: the "device" behind each live characteristic: id(char) -> [current raw reading]
+DEVICE: Dict[int, list] = {}
+
+
+def live_class():
+    """An application subclass of the public `Characteristic` that overrides the public accessor
+    `get_value()`: the value lives in the device and is read on demand (no getter callback, nothing
+    goes through a setter).  Same object layout as `Characteristic`, so a characteristic the loader
+    built can be given this class before the driver ever sees it."""
+    from pyhap.characteristic import Characteristic
+
+    cls = getattr(Characteristic, "_verif_live_class", None)
+    if cls is None:
+
+        class LiveCharacteristic(Characteristic):
+            __slots__ = ()
+
+            def get_value(self):
+                if TRACE_ON[0]:
+                    TRACE.append(("r", self))
+                return self.to_valid_value(DEVICE[id(self)][0])
+
+        cls = LiveCharacteristic
+        Characteristic._verif_live_class = cls
+    return cls
+
+
+def overrides_get_value(char) -> bool:
+    """True if the characteristic's class (an application subclass) overrides `get_value`."""
+    from pyhap.characteristic import Characteristic
+
+    for k in type(char).__mro__:
+        if k is Characteristic:
+            return False
+        if "get_value" in vars(k):
+            return True
+    return False
+
+
+def custom_manager(spec: Optional[dict]):
+    """An application `IIDManager` subclass overriding the documented extension point
+    `get_iid_for_obj` (the pattern of tests/test_accessory.py::test_acc_with_custom_iid_manager): objects
+    the application knows by `unique_id` keep the iid recorded for them, everything else is numbered
+    automatically by the base class; the application starts the counter where it wants.
+    spec = {"start": counter at construction, "recorded": {unique_id: iid}}; None = the stock manager."""
+    if spec is None:
+        return None
+    from pyhap.iid_manager import IIDManager
+
+    class RecordedIIDManager(IIDManager):
+        def __init__(self, recorded, start):
+            super().__init__()
+            self.recorded = dict(recorded)
+            self.counter = start
+
+        def get_iid_for_obj(self, obj):
+            iid = self.recorded.get(getattr(obj, "unique_id", None))
+            if iid is not None:
+                return iid
+            return super().get_iid_for_obj(obj)
+
+    return RecordedIIDManager(spec["recorded"], spec["start"])
+
+
 class GetterBoom(Exception):
     pass
 
@@ -123,7 +187,8 @@ class ScriptedGetter:
 
 
 class Rig:
-    def __init__(self, bridge: bool, main_specs: List[dict], main_aid: Optional[int] = 1, main_early=None):
+    def __init__(self, bridge: bool, main_specs: List[dict], main_aid: Optional[int] = 1, main_early=None,
+                 main_manager: Optional[dict] = None):
         import pyhap.accessory_driver as ad
         from pyhap.accessory import Accessory, Bridge
         from pyhap.loader import Loader
@@ -164,7 +229,9 @@ class Rig:
         self.objs: List[Any] = []  # number -> object
         self.ids: Dict[int, int] = {}  # id(object) -> number
         self.loader_names: Dict[int, Optional[str]] = {}  # id(char) -> loader display name
-        self.top = Bridge(self.driver, "Top") if bridge else Accessory(self.driver, "Top", aid=main_aid)
+        mgr = custom_manager(main_manager)
+        self.top = (Bridge(self.driver, "Top", iid_manager=mgr) if bridge
+                    else Accessory(self.driver, "Top", aid=main_aid, iid_manager=mgr))
         for spec in main_specs:
             self.add_service(self.top, spec, number=False)
         self.number_accessory(self.top)
@@ -267,7 +334,7 @@ class Rig:
             acc.add_service(svc)
         else:
             opt = list(spec.get("opt") or [])
-            svc = acc.add_preload_service(spec["svc"], chars=opt if opt else None)
+            svc = acc.add_preload_service(spec["svc"], chars=opt if opt else None, unique_id=spec.get("uid"))
         if number:
             self.number_service(svc)
         return svc
@@ -295,12 +362,12 @@ class Rig:
             svc.add_characteristic(*objs)
         return svc
 
-    def new_accessory(self, aid: Optional[int], specs: List[dict], cat_bridge: bool = False):
+    def new_accessory(self, aid: Optional[int], specs: List[dict], cat_bridge: bool = False, manager: Optional[dict] = None):
         """A fresh accessory (not yet bridged, objects not yet numbered)."""
         if cat_bridge:
             acc = self.Bridge(self.driver, "Inner bridge")
         else:
-            acc = self.RigAccessory(self.driver, "Acc", aid=aid)
+            acc = self.RigAccessory(self.driver, "Acc", aid=aid, iid_manager=custom_manager(manager))
         for spec in specs:
             self.add_service(acc, spec, number=False)
         return acc
